@@ -45,6 +45,24 @@ CHECKS = {
  "C17": ("proptest tape-driven generation of texts, integers, JSON documents (grammar) and maps; round-trip oracles plus independent base64/hex reference encoders and a JSON normaliser",
          "Round-trip generated search: bytes/base64/hex/JSON-collections/properties; handle table size restored after release. One known dependency defect (control characters in properties) is excluded by predicate and re-met every run. Exploration level.",
          "JSON numbers in serde_json canonical spelling; root-level null and handle-like strings not generated.", "DESIGN.md section 3 C17"),
+ "C07": ("proptest tape-driven generation of command sequences (typed argument pools derived from each command's help usage line + untyped pool, chained outputs, cyclic collections) and token-soup texts, run in ISOLATED child processes; validity-predicate oracle (returns Ok/Err, no panic, no abort, finishes within deterministic fuel); include-cycle probe in a child process",
+         "Generated-input search over every registered SDK name with hazard arguments; a panic is caught with its location, an abort or stack overflow kills only the shard process and is attributed to the case it was running, fuel exhaustion is the does-not-finish verdict because no generated line is a loop construct. Exploration level: absence is not proved.",
+         "File/process/network/environment-mutating commands and the internal:: family are removed before anything runs (safety of the root-run checker and the property's stated exclusions); resource-proportional requests are bounded.", "DESIGN.md section 3 C07"),
+ "C13": ("proptest tape-driven programs (scripted result commands, structured loops, non-terminating wrappers) with the halt flag raised at EVERY invocation boundary of small runs (sampled for large) from inside, and from a helper thread at random instants; metamorphic oracle: halted run = un-halted run cut at the halting point, variables = snapshot at that point",
+         "Differential/metamorphic generated search over all raise points incl. jumping, failing and error-handling instructions, with and without the embedder keeping a clone of the flag; the second-thread schedule is sampled, not owned. Exploration level.",
+         "Reference = same program without halt (fuel-cut when non-terminating); late helper threads make a case inconclusive, never a violation.", "DESIGN.md section 3 C13"),
+ "C14": ("proptest tape-driven generation of acyclic include trees written to a tmpfs scratch directory (nested dirs, relative/absolute/.. paths, names with spaces/non-ASCII, multi-file and repeated includes, planted faults); differential oracle included-vs-pasted (own inliner) at parse level, provenance, behaviour and error position",
+         "Differential generated search: parse_file(root) vs parse_text(paste(root)) instruction by instruction, meta_info of every instruction, run traces/variables/outcome, missing-file and malformed-line errors with file and line, run-time error provenance. Exploration level.",
+         "Paths compared after canonicalisation; cyclic trees belong to C07.", "DESIGN.md section 3 C14"),
+ "C18": ("proptest tape-driven generation of file-operation histories confined to a per-case tmpfs scratch directory; model-based oracle (reference file tree) with the real directory walked and compared after every step",
+         "Model-based stateful generated search over write/append/read/binary/touch/mkdir/cp/mv/rm/rmdir/queries/listing/path functions incl. wrong-kind and missing paths; a failing operation must leave the tree unchanged. Exploration level.",
+         "Only absolute paths below the scratch directory are ever passed (hard assertion); documented-open corners are not generated (listed in the evidence assumptions).", "DESIGN.md section 3 C18"),
+ "C19": ("proptest tape-driven generation of invocations of every script-implemented command (list cross-checked against /repo) in nested contexts with odd caller variable names; invariant oracle over snapshots taken right before and after every invocation (variables, scope:: leftovers, handle-table size, no leak crash)",
+         "Invariant-based generated search: caller variables unchanged except output/documented effect, no internal variable left, handle table grows only by a returned collection, no 'Memory leak detected' crash - at top level, in functions, loops, conditions, repeated. Exploration level.",
+         "Argument values outside the C09 known classes; file-touching script commands get scratch paths only.", "DESIGN.md section 3 C19"),
+ "C20": ("proptest tape-driven generation of deterministic scripts and lint files; differential oracle: the real duck binary (built from /repo by check.sh) vs the library run in process, plus an independent lower-case predicate for lint",
+         "Differential generated search over run forms (file, -e, --eval), endings (success, crash, exit codes incl. multiples of 256, parse error, fatal error), lint spellings and info flags: exit status, 'Error:' message and printed output must be what the library decided. Exploration level.",
+         "duck built with hooks off; REPL and title-case letters not generated.", "DESIGN.md section 3 C20"),
  "C01": ("proptest tape-driven generation of instructions + documented-syntax renderer; round-trip oracle render->parse_text",
          "Generated-input search: random instructions over hazard-biased arbitrary Unicode are rendered with random documented-syntax choices and must parse back to exactly the generated instruction (and n lines to n instructions with line numbers). Failures shrink to a minimal tape and replay file. Right level because the property is a round trip over an unbounded input space; absence is not proved.",
          "Trusts the 80-line renderer as a faithful reading of the README syntax; names restricted as listed in DESIGN.md C01.", "DESIGN.md section 3 C01"),
